@@ -339,7 +339,19 @@ class World:
             return self.mods[r].conn if isinstance(r, int) else self.hmods[int(r[1:])].conn
 
         rl = [LISTENER if r == "L" else conn_of(r) for r in ready]
+        self.sim.last_served = None
         self.sim.step(rl, [conn_of(i) for i in writable], dt)
+        if self.sim.last_served is not None and not self.sim.dead:
+            # every connection is either still watched by the manager or has been closed by it
+            watched = {id(s) for s in self.sim.last_served}
+            for r in ready:
+                if r == "L":
+                    continue
+                c = conn_of(r)
+                if c.accepted and id(c.m) not in watched and not c.manager_closed:
+                    self.viol("departure/abandoned-open", f"round {self.rounds + 1}: conn {r} has data (or an end-of-stream) pending and its "
+                              f"socket is still open at the manager, but the manager no longer waits for it - the connection was "
+                              f"dropped from the manager's tables without being closed (the descriptor leaks)")
         for h in self.hmods:
             if not h.client_closed:
                 h.conn.take()  # never observed; keep memory flat
